@@ -65,6 +65,30 @@ CHECKS.update({
     ),
 })
 
+CHECKS.update({
+    "C07": (
+        "model_checking",
+        "vloop-explorer",
+        "stateless explicit-state exploration of the real APIConnection from seeded lifecycle states; a reference model of the "
+        "stop-callback contract (count and argument) is evaluated inside every on_stop call and at the end of every execution",
+        "All sequences of close causes (peer request, disconnect(), force_disconnect(), EOF, RST, sync/async write error, ping "
+        "timeout, protocol error, cancel) up to the depth bound, including same-turn orderings and two frames per chunk, are executed; "
+        "the callback count must equal 'ever CONNECTED' and its argument must match the reference outside a stated ambiguous zone.",
+        BASE,
+        "DESIGN.md §3 C07, §9",
+    ),
+    "C08": (
+        "fault_enumeration",
+        "vloop-explorer",
+        "crash-point enumeration on the real code: every close cause injected before every single event-loop callback of canonical "
+        "scenarios (singly and in pairs) plus bounded schedule exploration; auditor lists sockets/transports/timers/tasks after each close",
+        "The harness owns the loop, so it can enumerate every callback boundary as an injection point and list every timer, task and "
+        "socket afterwards; sends and deliveries are judged at the moment they occur against the state at dispatch start.",
+        BASE,
+        "DESIGN.md §3 C08",
+    ),
+})
+
 NOT_APPLICABLE: dict[str, str] = {}
 
 
